@@ -95,12 +95,12 @@ func RaftNode.Add
 
 func RaftNode.QueryDigestMembership
   props C11
-  requires n.metrics != nil && n.balloon != nil && HyperOK(n.balloon.hyperTree) && n.balloon.historyTree != nil && n.balloon.hasherF != nil && pure_fn(n.balloon.hasherF)
+  requires n.metrics != nil && n.balloon != nil && HyperOK(n.balloon.hyperTree) && HistProver(n.balloon.historyTree) && n.balloon.hasherF != nil && pure_fn(n.balloon.hasherF)
   may_panic
   modifies everything, proveCalls, lastProveVersion
 func RaftNode.QueryDigestMembershipConsistency
   props C11
-  requires n.metrics != nil && n.balloon != nil && HyperOK(n.balloon.hyperTree) && n.balloon.historyTree != nil && n.balloon.hasherF != nil && pure_fn(n.balloon.hasherF)
+  requires n.metrics != nil && n.balloon != nil && HyperOK(n.balloon.hyperTree) && HistProver(n.balloon.historyTree) && n.balloon.hasherF != nil && pure_fn(n.balloon.hasherF)
   may_panic
   modifies everything, proveCalls, lastProveVersion
 func RaftNode.QueryConsistency
@@ -128,9 +128,13 @@ func command.encode
 
 func encodeMsgPack
 // (ghost bookkeeping: whether the last decode succeeded and, for version metadata, what it read)
+// (assumed decoder model, as for raft log entries: a decoded fsm state is, field by field, a function of the bytes read)
+spec func fsIndex(Bytes) uint64
+spec func fsVersion(Bytes) uint64
 func decodeMsgPack
-  modifies *dyn(out), lastDecodeOK, lastMetaPrev, lastMetaNew
-  assumes lastDecodeOK == isnil(result)
+  modifies *dyn(out), lastDecodeOK, lastMetaPrev, lastMetaNew, lastDecodedSrc
+  assumes lastDecodeOK == isnil(result) && lastDecodedSrc == bytes(buf)
+  assumes isnil(result) && istype(out, *fsmState) && dyn(out, *fsmState) != nil ==> dyn(out, *fsmState).Index == fsIndex(bytes(buf)) && dyn(out, *fsmState).BalloonVersion == fsVersion(bytes(buf))
   assumes isnil(result) && istype(out, *VersionMetadata) && dyn(out, *VersionMetadata) != nil ==> lastMetaPrev == dyn(out, *VersionMetadata).PreviousVersion && lastMetaNew == dyn(out, *VersionMetadata).NewVersion
 func fsmState.encode
 func VersionMetadata.encode
@@ -142,8 +146,13 @@ func VersionMetadata.encode
 immutable raftLog.db, raftLog.cfHandles, raftLog.ro, raftLog.wo, raftLog.codec by newRaftLogOpts, raftLog.Close
 define LogOK(s) = s.db != nil && len(s.cfHandles) == 3
 
+// what is handed to the encoder is THE ENTRY ITSELF, every field of it (a trimmed copy - say, one
+// that leaves empty fields out - decodes into whatever the reader's entry held before)
 func raftLog.encodeRaftLog
-  ensures isnil(result_1) ==> true
+  props C15
+  requires in != nil
+  modifies encodeCalls, lastEncoded
+  ensures C15/the-entry-itself-is-encoded: encodeCalls == old(encodeCalls) + 1 && istype(lastEncoded, *raft.Log) && dyn(lastEncoded, *raft.Log) == in
 // what GetLog hands back is, field by field, what the stored bytes decode to: no field is
 // dropped or left over from the caller's entry (the decoder itself is an assumed model)
 func raftLog.decodeRaftLog
@@ -156,7 +165,7 @@ func raftLog.decodeRaftLog
 func raftLog.StoreLog
   props C15
   requires LogOK(s) && log != nil
-  modifies dbWrites, lastPutKey, lastPutVal, lastPutCF
+  modifies dbWrites, lastPutKey, lastPutVal, lastPutCF, encodeCalls, lastEncoded
   ensures C15/key-is-index: isnil(result) ==> dbWrites == old(dbWrites) + 1 && lastPutKey == be64(log.Index) && lastPutCF == s.cfHandles[logTable]
   ensures C15/encode-error-writes-nothing: dbWrites == old(dbWrites) || dbWrites == old(dbWrites) + 1
 
@@ -164,9 +173,9 @@ func raftLog.StoreLog
 func raftLog.StoreLogs
   props C15
   requires LogOK(s) && (forall k int :: 0 <= k && k < len(logs) ==> logs[k] != nil)
-  modifies dbWrites, lastWritePuts, lastWriteHadLogData, batchPuts, batchHasLogData, lastPutKey, lastPutVal, lastPutCF
+  modifies dbWrites, lastWritePuts, lastWriteHadLogData, batchPuts, batchHasLogData, lastPutKey, lastPutVal, lastPutCF, encodeCalls, lastEncoded
   ensures C15/one-batch: isnil(result) ==> dbWrites == old(dbWrites) + 1 && lastWritePuts == len(logs)
-  loop 1 modifies batchPuts, lastPutKey, lastPutVal, lastPutCF
+  loop 1 modifies batchPuts, lastPutKey, lastPutVal, lastPutCF, encodeCalls, lastEncoded
   loop 1 invariant batchPuts == rangeindex + 1 && rangeindex < len(logs) && dbWrites == old(dbWrites)
 
 // an entry is looked up under the big-endian bytes of the index asked for, in the log table
@@ -238,10 +247,12 @@ func RaftNode.DeleteBackup
   requires !isnil(n.db) && !isnil(n.log)
   modifies everything, deleteBackupCalls, lastDeletedBackup
   ensures C16/only-the-named-backup: deleteBackupCalls == old(deleteBackupCalls) + 1 && lastDeletedBackup == backupID
+// the node lists EXACTLY what its store lists: every existing backup, none filtered out
 func RaftNode.ListBackups
   props C16
   requires !isnil(n.db) && !isnil(n.log)
-  modifies everything
+  modifies everything, storeListedBackups
+  ensures C16/lists-what-the-store-lists: arrayof(result) == arrayof(storeListedBackups) && len(result) == len(storeListedBackups)
 
 // ---- C09: state transfer ----------------------------------------------------------------
 // Leader side: the filter that decides, batch by batch in write-ahead-log order, what is
@@ -264,11 +275,16 @@ func RaftNode.FetchSnapshot.$1.$1
 // in memory is derived again from the store: fsm state, balloon version, hyper cache.
 // ASSUMED bookkeeping: loadState reads the state from the store as it is now
 func RaftNode.loadState
-  props C09
+  props C07 C09
   requires !isnil(n.db) && !isnil(n.log)
   modifies everything, stateSeenLoads
   ensures isnil(result) ==> n.state != nil
   ensures old(n.state) != nil ==> n.state != nil
+  // C07: the state a (re)started node continues from is, field by field, what the store holds - a
+  // stored state is never "tidied" into a clean one (the applied index decides which log entries are
+  // replayed: with a smaller one an entry is applied twice); only a MISSING state is a clean instance
+  ensures C07/recovered-state-is-the-stored-one: isnil(result) && !storeGetMissed && lastDecodeOK ==> n.state.Index == fsIndex(lastDecodedSrc) && n.state.BalloonVersion == fsVersion(lastDecodedSrc)
+  ensures C07/clean-instance-only-when-nothing-is-stored: isnil(result) && storeGetMissed ==> n.state.Index == 0 && n.state.BalloonVersion == 0
   assumes stateSeenLoads == snapshotLoads
 // ASSUMED (not verified: gRPC plumbing): opening the stream leaves the node's fsm state alone
 func RaftNode.attemptToFetchSnapshot
